@@ -194,7 +194,12 @@ pub fn bodies() -> Vec<(&'static str, Vec<u8>)> {
     let truncated = regular[..regular.len() - 9].to_vec();
     let corrupted = br#"{"version":3,"sources":["a.js"],"names":[],"mappings":"AAAA,C!"}"#.to_vec();
     let nonmap = br#"[1,2,3]"#.to_vec();
-    vec![("regular", regular), ("index", index), ("hermes", hermes), ("truncated", truncated), ("corrupted-mapping", corrupted), ("non-map-json", nonmap)]
+    // a byte that is not UTF-8 inside a string value (a recogniser that skips values need not
+    // validate it; whatever each entry point says, reader and slice must say the same)
+    let mut stray = br#"{"version":3,"file":"?","sources":["a.js"],"names":[],"mappings":"AAAA"}"#.to_vec();
+    let at = stray.iter().position(|&b| b == b'?').unwrap();
+    stray[at] = 0xE9;
+    vec![("regular", regular), ("index", index), ("hermes", hermes), ("truncated", truncated), ("corrupted-mapping", corrupted), ("non-map-json", nonmap), ("stray-byte-in-a-string", stray)]
 }
 
 pub fn run(run: &mut Run) -> Finish {
@@ -204,7 +209,7 @@ pub fn run(run: &mut Run) -> Finish {
     let bods = bodies();
     let nb = bods.len() as u64;
 
-    run.par_slice("every header of length <= 4/6 over {) ] } ' x \\r \\n { 0xC3} x 6 bodies x every composition of the first len(header)+3 bytes (remainder in one read)", 1, nh * nb, |idx, l| {
+    run.par_slice("every header of length <= 4/6 over {) ] } ' x \\r \\n { 0xC3} x 7 bodies x every composition of the first len(header)+3 bytes (remainder in one read)", 1, nh * nb, |idx, l| {
         let k = idx & ((1 << 40) - 1);
         let header: Vec<u8> = crate::spaces::seq_upto_unrank(9, hmax, k / nb).iter().map(|&i| HALPHA[i]).collect();
         let mut data = header.clone();
@@ -250,7 +255,7 @@ pub fn run(run: &mut Run) -> Finish {
     special.push(&long_b);
     special.push(&long_c);
     let ns = special.len() as u64;
-    run.par_slice("canonical/irregular headers x 6 bodies: every uniform chunk size 1..=16 and every choice of <= 2 cut points anywhere", 3, ns * nb, |idx, l| {
+    run.par_slice("canonical/irregular headers x 7 bodies: every uniform chunk size 1..=16 and every choice of <= 2 cut points anywhere", 3, ns * nb, |idx, l| {
         let k = idx & ((1 << 40) - 1);
         let mut data = special[(k / nb) as usize].to_vec();
         data.extend_from_slice(&bods[(k % nb) as usize].1);
@@ -292,7 +297,7 @@ pub fn run(run: &mut Run) -> Finish {
     });
 
     // data URLs
-    run.seq_slice("data URLs: both preambles x 6 bodies x junk header or not", 4, |base, l| {
+    run.seq_slice("data URLs: both preambles x 7 bodies x junk header or not", 4, |base, l| {
         for (i, (_, body)) in bods.iter().enumerate() {
             for pre in ["data:application/json;base64,", "data:application/json;charset=utf-8;base64,"] {
                 for hdr in [&b""[..], b")]}'\n"] {
